@@ -20,6 +20,9 @@ SITE_NAMES = {1: "GEZ + GEZ", 2: "GEZ * GEZ", 3: "GEZ.div(Pos)", 4: "Pos * Pos",
               20: "set_latest_post_status acb assert", 21: "set_latest_post_status all-affiliate assert (portfolio_status.rs:100)"}
 
 
+STRICT_SITES = (4, 5, 6, 7, 8, 9, 13, 14)   # C05_rounded_panic_classes: strictly-signed constrained quantities
+
+
 def classify_panic(loc):
     """known class of an implementation panic, from its source location / message"""
     if "math.rs:93" in loc or ("does not match constraints" in loc and " 0.00" in loc and "Neg" in loc):
@@ -28,7 +31,8 @@ def classify_panic(loc):
         return "split-residue-assert"
     if "overflowed" in loc or "Overflow" in loc:
         return "decimal-overflow"
-    if "does not match constraints" in loc or "decimal.rs" in loc:
+    # a strictly positive / negative constrained quantity that rounded to exactly zero
+    if re.search(r'"-?0(\.0+)? does not match constraints of [\w:]*constraint::(Pos|Neg)"', loc):
         return "decimal-underflow"
     return None
 
@@ -41,9 +45,29 @@ def model_panic_class(p):
         return "eff-cent-zero"
     if kind == 4 and site == 21:
         return "split-residue-assert"
-    if kind == 3:
+    if kind == 3 and site in STRICT_SITES:
         return "decimal-underflow"
     return None
+
+
+def underflow_history(rng):
+    """a huge holder and a dust co-holder buying inside the window of a small loss: the
+    co-holder's portion of the denied loss is far below 1e-28"""
+    d0 = core.BASE_DAY + rng.randint(10, 300)
+    def _r(day, act, sh, aps, af):
+        return {"sec": "FOO", "td": d0 + day, "sd": d0 + day, "act": act, "sh": sh, "aps": aps,
+                "com": None, "cur": None, "rate": None, "af": af}
+    for _ in range(50):
+        bigsh = core.D(rng.choice([9, 8, 5, 1]) * 10 ** rng.choice([11, 11, 10, 9]))
+        dust = core.D(rng.randint(1, 9), 10)
+        sold = core.D(rng.choice([1, 1, 5]), rng.choice([0, 1]))
+        px = core.D(10 ** 7 - rng.choice([1, 3, 7]) * 10 ** rng.choice([0, 0, 1, 2]), 7)
+        portion = (Fraction(1) - px[1]) * sold[1] * dust[1] / (bigsh[1] + dust[1])
+        if rng.random() < 0.3 or portion < Fraction(4, 10 ** 29):
+            break
+    rows = [_r(0, "Buy", bigsh, core.D(1), None), _r(1, "Buy", dust, core.D(1), rng.choice(["B", "Spouse"])),
+            _r(8, "Sell", sold, px, None)]
+    return rows
 
 
 def big(rng):
@@ -130,7 +154,10 @@ def run(res, ctx):
     while done < n:
         cases = []
         for _ in range(min(600, n - done)):
-            if rng.random() < 0.5:
+            k_ = rng.random()
+            if k_ < 0.04:
+                cases.append({"rows": underflow_history(rng), "inits": {}})
+            elif k_ < 0.5:
                 cases.append({"rows": extreme_history(rng), "inits": {}})
             else:
                 cases.append(gen.gen_case(rng, p_invalid=0.1, p_sfl_spec=0.05))
